@@ -111,9 +111,42 @@ def plan(prop, tier):
     return model, gen, sim
 
 
+MUTATED_CLASSES = ["init.ok", "hello.ready.ge30.absent", "hello.pending.ge30.absent", "hello.pending.absent.true",
+                   "hello.aborted.absent.absent", "prot.announceMax", "prot.select", "proterr", "pin.none", "accreq", "acc.A",
+                   "close.announce", "close.confirm", "data", "databad", "unknown"]
+
+
+def fuzz_tests(sd, tier, seed):
+    """C08: for every state a cooperative peer can bring a connection into (all edges of the budget-0 graph), deliver
+    structured byte-level mutations of every message class; the harness derives mutant k of class m deterministically."""
+    per = 6 if tier == "quick" else 60
+    out = []
+    for n, kw in single_cfgs(["cli", "srvP", "srvW", "srvN"]):
+        name = "FZ_" + n
+        args = dict(kw)
+        args.update(defects=sme.DEFECTS, genmode="budget", budget=0, maxfail=0, maxdata=1, envclose=False, emit="edge",
+                    action_constraints=["EmitEdge"])
+        smegen.write(sd, name, **args)
+        ts, _ = sme.generate(sd, name, cfgd_of(name, kw), timeout=600)
+        seen = set()
+        for t in ts:
+            last = t["steps"][-1]
+            key = json.dumps(last.get("x"), sort_keys=True)
+            if key in seen or last["a"]["a"] == "Sleep":
+                continue
+            seen.add(key)
+            prefix = [dict(a=s["a"], p=s.get("p", {})) for s in t["steps"]]
+            for ci, m in enumerate(MUTATED_CLASSES):
+                for k in range(per):
+                    mut = dict(a=dict(a="Mutate", e="x", m=m, id=str(k * 16 + ci + seed * 1000)))
+                    out.append(dict(cfg=t["cfg"], steps=prefix + [mut]))
+    return out
+
+
 def run_check(prop, tier):
     t0 = time.time()
     known = vlib.load_known()
+    vlib.clear_replays(prop)
     seed = vlib.seed()
     model, gen, sim = plan(prop, tier)
     with vlib.Scratch(prop) as sc:
@@ -179,6 +212,11 @@ def run_check(prop, tier):
             tests += ts
         if not tests:
             raise vlib.Infra("stage G produced no behaviours")
+        nfuzz = 0
+        if prop == "C08":
+            fz = fuzz_tests(sd, tier, seed)
+            nfuzz = len(fz)
+            tests += fz
         print("stage G: %d behaviours (%d edges), %.0fs" % (len(tests), edges, time.time() - tg))
 
         # ---- stage R: replay into the real code
@@ -195,7 +233,8 @@ def run_check(prop, tier):
             p = m["key"][0]
             ks = vlib.key_str(m["key"][1:])
             if p != prop:
-                others.setdefault(p + "/" + ks, m["id"])
+                if not byid[m["id"]]["cfg"]["name"].startswith("FZ_"):
+                    others.setdefault(p + "/" + ks, m["id"])
                 continue
             kf = vlib.classify(prop, m["key"][1:], m.get("kf", []), known)
             if kf:
@@ -218,7 +257,7 @@ def run_check(prop, tier):
             traces_validated_against_impl=summ["tests"],
             samples=[dict(cfg=sample["cfg"], actions=[s["a"] for s in sample["steps"]])],
             model_configs=[n for n, _ in mres],
-            edges_emitted=edges, behaviours_replayed=summ["tests"], steps_replayed=summ["steps"],
+            edges_emitted=edges, mutation_runs=nfuzz, behaviours_replayed=summ["tests"], steps_replayed=summ["steps"],
             nonconformance=summ["divergences"], monitor_violation_lines=len(mons),
             known_findings_hit=sorted(known_hits),
             exhaustive=False,
